@@ -294,6 +294,14 @@ enum Rd {
     Eof,
 }
 
+/// what the harness knows at the moment `poll_read` is called: how many bytes had been delivered, how
+/// many frame outputs the stream had yielded, which codecs were in place since the last byte arrived
+struct ReadSnap {
+    delivered: usize,
+    frames: usize,
+    sels: Vec<Sel>,
+}
+
 #[derive(Default)]
 struct IoState {
     // read side
@@ -306,21 +314,39 @@ struct IoState {
     min_room: Option<usize>,
     read_events: Vec<String>,
     wakes_requested: usize,
-    // write side
+    /// set by the harness after every poll: frame outputs yielded so far
+    frames_so_far: usize,
+    /// codecs in place since the last byte was delivered (the last one is the current codec)
+    sels_since_arrival: Vec<Sel>,
+    read_snaps: Vec<ReadSnap>,
+    // write side: a buffering transport.  `poll_write` stages the bytes it accepts; they reach the
+    // wire (`written`) only when `poll_flush` (or `poll_shutdown`) completes
     wscript: VecDeque<Wr>,
     fscript: VecDeque<Fl>,
     sscript: VecDeque<Fl>,
     written: Vec<u8>,
+    staged: Vec<u8>,
     n_write: usize,
     n_flush: usize,
     n_shutdown: usize,
     shut: bool,
     zero_answers: usize,
     empty_writes: usize,
+    /// `Pending` answers of the write half (each one registered a wake-up)
+    wpending_answers: usize,
+    /// error answers of the write half, in order
+    werr_answers: Vec<io::ErrorKind>,
     /// total length of the encodings accepted by `start_send` so far (set by the harness)
     expected_total: usize,
-    /// `poll_shutdown` was called while accepted bytes had not reached the transport
+    /// `poll_shutdown` was called while accepted bytes had not been handed to the transport
     shutdown_early: Option<usize>,
+}
+
+impl IoState {
+    /// bytes the transport has accepted so far (on the wire or staged)
+    fn taken(&self) -> usize {
+        self.written.len() + self.staged.len()
+    }
 }
 
 #[derive(Clone, Debug, PartialEq)]
@@ -350,6 +376,8 @@ impl AsyncRead for ScriptedIo {
         if room == 0 {
             st.zero_room_reads += 1;
         }
+        let snap = ReadSnap { delivered: st.delivered.len(), frames: st.frames_so_far, sels: st.sels_since_arrival.clone() };
+        st.read_snaps.push(snap);
         match st.rscript.pop_front() {
             None => {
                 st.eof_answered = true;
@@ -372,6 +400,8 @@ impl AsyncRead for ScriptedIo {
                 }
                 if k == 0 {
                     st.eof_answered = true;
+                } else if let Some(cur) = st.sels_since_arrival.last().copied() {
+                    st.sels_since_arrival = vec![cur];
                 }
                 Poll::Ready(Ok(()))
             }
@@ -401,12 +431,12 @@ impl AsyncWrite for ScriptedIo {
         }
         match st.wscript.pop_front() {
             None => {
-                st.written.extend_from_slice(buf);
+                st.staged.extend_from_slice(buf);
                 Poll::Ready(Ok(buf.len()))
             }
             Some(Wr::Accept(k)) => {
                 let n = k.min(buf.len());
-                st.written.extend_from_slice(&buf[..n]);
+                st.staged.extend_from_slice(&buf[..n]);
                 if n == 0 && !buf.is_empty() {
                     st.zero_answers += 1;
                 }
@@ -420,42 +450,62 @@ impl AsyncWrite for ScriptedIo {
             }
             Some(Wr::Pending) => {
                 st.wakes_requested += 1;
+                st.wpending_answers += 1;
                 cx.waker().wake_by_ref();
                 Poll::Pending
             }
-            Some(Wr::Err(k)) => Poll::Ready(Err(io::Error::new(k, IO_MSG))),
+            Some(Wr::Err(k)) => {
+                st.werr_answers.push(k);
+                Poll::Ready(Err(io::Error::new(k, IO_MSG)))
+            }
         }
     }
     fn poll_flush(self: Pin<&mut Self>, cx: &mut Context<'_>) -> Poll<io::Result<()>> {
         let mut st = self.0.borrow_mut();
         st.n_flush += 1;
         match st.fscript.pop_front() {
-            None | Some(Fl::Ok) => Poll::Ready(Ok(())),
+            None | Some(Fl::Ok) => {
+                // the flush completed: everything staged is on the wire
+                let staged = std::mem::take(&mut st.staged);
+                st.written.extend_from_slice(&staged);
+                Poll::Ready(Ok(()))
+            }
             Some(Fl::Pending) => {
                 st.wakes_requested += 1;
+                st.wpending_answers += 1;
                 cx.waker().wake_by_ref();
                 Poll::Pending
             }
-            Some(Fl::Err(k)) => Poll::Ready(Err(io::Error::new(k, IO_MSG))),
+            Some(Fl::Err(k)) => {
+                st.werr_answers.push(k);
+                Poll::Ready(Err(io::Error::new(k, IO_MSG)))
+            }
         }
     }
     fn poll_shutdown(self: Pin<&mut Self>, cx: &mut Context<'_>) -> Poll<io::Result<()>> {
         let mut st = self.0.borrow_mut();
         st.n_shutdown += 1;
-        if st.written.len() < st.expected_total && st.shutdown_early.is_none() {
-            st.shutdown_early = Some(st.expected_total - st.written.len());
+        if st.taken() < st.expected_total && st.shutdown_early.is_none() {
+            st.shutdown_early = Some(st.expected_total - st.taken());
         }
         match st.sscript.pop_front() {
             None | Some(Fl::Ok) => {
+                // "invocation of a shutdown implies an invocation of flush"
+                let staged = std::mem::take(&mut st.staged);
+                st.written.extend_from_slice(&staged);
                 st.shut = true;
                 Poll::Ready(Ok(()))
             }
             Some(Fl::Pending) => {
                 st.wakes_requested += 1;
+                st.wpending_answers += 1;
                 cx.waker().wake_by_ref();
                 Poll::Pending
             }
-            Some(Fl::Err(k)) => Poll::Ready(Err(io::Error::new(k, IO_MSG))),
+            Some(Fl::Err(k)) => {
+                st.werr_answers.push(k);
+                Poll::Ready(Err(io::Error::new(k, IO_MSG)))
+            }
         }
     }
 }
@@ -537,12 +587,22 @@ enum Sel {
     Len,
 }
 
+const SELS: [Sel; 3] = [Sel::Lines, Sel::Len, Sel::Bytes];
+
 impl Sel {
     fn name(self) -> &'static str {
         match self {
             Sel::Lines => "lines",
             Sel::Bytes => "bytes",
             Sel::Len => "len",
+        }
+    }
+    fn parse(s: &str) -> Option<Sel> {
+        match s {
+            "lines" => Some(Sel::Lines),
+            "bytes" => Some(Sel::Bytes),
+            "len" => Some(Sel::Len),
+            _ => None,
         }
     }
 }
@@ -565,7 +625,10 @@ struct AnyCodec {
 
 impl AnyCodec {
     fn new(sel: Sel) -> Self {
-        AnyCodec { sel, lines: LinesCodec::default(), bytes: BytesCodec, len: LenCodec, cnt: Default::default() }
+        AnyCodec::with_counters(sel, Default::default())
+    }
+    fn with_counters(sel: Sel, cnt: Rc<RefCell<Counters>>) -> Self {
+        AnyCodec { sel, lines: LinesCodec::default(), bytes: BytesCodec, len: LenCodec, cnt }
     }
 }
 
@@ -650,6 +713,10 @@ struct Session {
     framed: Option<Framed<ScriptedIo, AnyCodec>>,
     wake: Arc<CountWake>,
     outs: Vec<Out>,
+    /// the codec in place when `outs[i]` was produced
+    out_sel: Vec<Sel>,
+    /// read snapshots already examined by the oracle
+    snaps_checked: usize,
     dead: bool,
     /// concatenated encodings (computed by the harness, not by the codec) of the accepted items
     accepted: Vec<u8>,
@@ -658,6 +725,7 @@ struct Session {
 impl Session {
     fn new(sel: Sel) -> Self {
         let io = ScriptedIo(Default::default());
+        io.0.borrow_mut().sels_since_arrival = vec![sel];
         let codec = AnyCodec::new(sel);
         let cnt = codec.cnt.clone();
         Session {
@@ -667,16 +735,25 @@ impl Session {
             framed: Some(Framed::new(io, codec)),
             wake: Arc::new(CountWake(AtomicUsize::new(0))),
             outs: vec![],
+            out_sel: vec![],
+            snaps_checked: 0,
             dead: false,
             accepted: vec![],
         }
     }
 
-    fn poll_next(&mut self) -> Result<Out, String> {
+    /// one poll of the stream: `Stream::poll_next`, or the inherent `Framed::next_item`
+    fn poll_next(&mut self, inherent: bool) -> Result<Out, String> {
         let waker = Waker::from(self.wake.clone());
         let mut cx = Context::from_waker(&waker);
         let framed = self.framed.as_mut().unwrap();
-        let r = catch(|| Pin::new(&mut *framed).poll_next(&mut cx));
+        let r = catch(|| {
+            if inherent {
+                Pin::new(&mut *framed).next_item(&mut cx)
+            } else {
+                Pin::new(&mut *framed).poll_next(&mut cx)
+            }
+        });
         let out = match r {
             Err(e) => {
                 self.dead = true;
@@ -695,7 +772,40 @@ impl Session {
             }
         };
         self.outs.push(out.clone());
+        self.out_sel.push(self.sel);
+        if out.is_frame() {
+            self.io.0.borrow_mut().frames_so_far += 1;
+        }
         Ok(out)
+    }
+
+    /// codec swap: flags, `read_buf` and `write_buf` must be carried over
+    fn swap(&mut self, sel: Sel, via: &str) -> bool {
+        let f = self.framed.take().unwrap();
+        let cnt = self.cnt.clone();
+        let f2 = match via {
+            "map" => f.into_map_codec(move |old: AnyCodec| AnyCodec::with_counters(sel, old.cnt.clone())),
+            "replace" => f.replace_codec(AnyCodec::with_counters(sel, cnt)),
+            "parts" => {
+                let mut parts = f.into_parts();
+                parts.codec = AnyCodec::with_counters(sel, cnt);
+                Framed::from_parts(parts)
+            }
+            _ => {
+                self.framed = Some(f);
+                return false;
+            }
+        };
+        self.framed = Some(f2);
+        self.sel = sel;
+        self.io.0.borrow_mut().sels_since_arrival.push(sel);
+        true
+    }
+
+    /// `into_map_io` with the identity
+    fn map_io(&mut self) {
+        let f = self.framed.take().unwrap();
+        self.framed = Some(f.into_map_io(|io: ScriptedIo| io));
     }
 
     fn read_buf(&mut self) -> Vec<u8> {
@@ -712,32 +822,56 @@ impl Session {
         v
     }
 
-    fn wr_counters(&mut self) -> String {
+    fn wr_counters(&mut self, rep: &mut Report) -> String {
         let wb = self.write_buf();
+        let f = self.framed.as_ref().unwrap();
+        let (ready, full, empty) = (f.is_write_ready(), f.is_write_buf_full(), f.is_write_buf_empty());
+        // T3: the three predicates against the real buffer
+        if ready != (wb.len() < HW) || full != (wb.len() >= HW) || empty != wb.is_empty() {
+            rep.t3("C14", &format!("with {} bytes buffered: is_write_ready={ready} is_write_buf_full={full} is_write_buf_empty={empty}", wb.len()));
+        }
         let io = self.io.0.borrow();
-        format!("w={} f={} s={} out={} wb={}", io.n_write, io.n_flush, io.n_shutdown, show_bytes(&io.written), show_bytes(&wb))
+        format!(
+            "w={} f={} s={} out={} st={} wb={} is={}{}{}",
+            io.n_write,
+            io.n_flush,
+            io.n_shutdown,
+            show_bytes(&io.written),
+            show_bytes(&io.staged),
+            show_bytes(&wb),
+            if ready { "r" } else { "-" },
+            if full { "f" } else { "-" },
+            if empty { "e" } else { "-" }
+        )
     }
 
-    fn rd_counters(&mut self) -> String {
+    fn rd_counters(&mut self, rep: &mut Report) -> String {
         let buf = self.read_buf();
+        let empty = self.framed.as_ref().unwrap().is_read_buf_empty();
+        if empty != buf.is_empty() {
+            rep.t3("C13", &format!("is_read_buf_empty={empty} with {} bytes in read_buf", buf.len()));
+        }
         let c = self.cnt.borrow();
-        format!("rd={} dec={} eofc={} buf={}", self.io.0.borrow().n_read, c.n_decode, c.n_decode_eof, show_bytes(&buf))
+        format!("rd={} dec={} eofc={} buf={} e={}", self.io.0.borrow().n_read, c.n_decode, c.n_decode_eof, show_bytes(&buf), empty as u8)
+    }
+}
+
+fn conv_dec(r: io::Result<Option<Vec<u8>>>) -> Out {
+    match r {
+        Ok(None) => Out::None,
+        Ok(Some(f)) => Out::Item(f),
+        Err(e) => Out::DecErr(e.kind()),
     }
 }
 
 /// what a consumer of the whole stream sees from a fresh instance of the real codec: every result of
-/// `decode` until `None`, then (at end of file) `need` results of `decode_eof`
+/// `decode` until `None`, then (at end of file) results of `decode_eof`
 fn whole_stream(sel: Sel, stream: &[u8], at_eof: bool, need: usize) -> Vec<Out> {
     let mut codec = AnyCodec::new(sel);
     let mut src = BytesMut::from(stream);
     let mut out = vec![];
-    let conv = |r: io::Result<Option<Vec<u8>>>| match r {
-        Ok(None) => Out::None,
-        Ok(Some(f)) => Out::Item(f),
-        Err(e) => Out::DecErr(e.kind()),
-    };
     loop {
-        match conv(codec.decode(&mut src)) {
+        match conv_dec(codec.decode(&mut src)) {
             Out::None => break,
             o => out.push(o),
         }
@@ -747,16 +881,44 @@ fn whole_stream(sel: Sel, stream: &[u8], at_eof: bool, need: usize) -> Vec<Out> 
     }
     if at_eof {
         while out.len() < need {
-            out.push(conv(codec.decode_eof(&mut src)));
+            out.push(conv_dec(codec.decode_eof(&mut src)));
         }
     }
     out
 }
 
-/// T3 for C13, evaluated on everything the real `Framed` has answered so far in this case
-fn oracle_c13(s: &Session, rep: &mut Report) {
+/// can a fresh instance of the codec take anything (a frame or an error) out of exactly these bytes?
+fn can_decode(sel: Sel, bytes: &[u8]) -> bool {
+    match sel {
+        Sel::Bytes => !bytes.is_empty(),
+        _ => {
+            let mut src = BytesMut::from(bytes);
+            !matches!(AnyCodec::new(sel).decode(&mut src), Ok(None))
+        }
+    }
+}
+
+fn show_outs(v: &[Out]) -> String {
+    let n = v.len();
+    if n <= 12 {
+        v.iter().map(|o| o.show()).collect::<Vec<_>>().join(",")
+    } else {
+        format!("{},..({} more)..,{}", v[..6].iter().map(|o| o.show()).collect::<Vec<_>>().join(","), n - 9, v[n - 3..].iter().map(|o| o.show()).collect::<Vec<_>>().join(","))
+    }
+}
+
+/// T3 for C13, evaluated on everything the real `Framed` has answered so far in this case.
+///
+/// The reference is computed from the bytes the transport delivered and fresh instances of the real
+/// codecs only: the frame outputs (items, decode errors, `None`) must be what the codec in place
+/// decodes from the not yet consumed part of the whole stream — `decode` until `None`, at end of file
+/// `decode_eof` — also across codec swaps (the new codec continues where the frames taken by the old
+/// one end); `Pending`s and I/O errors must be surfaced exactly once, by the poll in which they
+/// happened; and the transport must not be read while the bytes already delivered hold a frame the
+/// codec has not yielded (the frame would be stuck behind a `Pending` or reordered after an error).
+fn oracle_c13(s: &mut Session, rep: &mut Report) {
     let io = s.io.0.borrow();
-    let frames: Vec<Out> = s.outs.iter().filter(|o| o.is_frame()).cloned().collect();
+    let frames: Vec<(Out, Sel)> = s.outs.iter().zip(&s.out_sel).filter(|(o, _)| o.is_frame()).map(|(o, c)| (o.clone(), *c)).collect();
     let events: Vec<String> = s.outs.iter().filter(|o| !o.is_frame()).map(|o| o.show()).collect();
     if events != io.read_events {
         rep.t3("C13", &format!("transport answered {:?} but the stream surfaced {:?}", io.read_events, events));
@@ -771,44 +933,113 @@ fn oracle_c13(s: &Session, rep: &mut Report) {
         rep.t3("C13", "poll_next panicked or did not return (watchdog)");
         return;
     }
-    let show = |v: &[Out]| v.iter().map(|o| o.show()).collect::<Vec<_>>().join(",");
-    match s.sel {
-        Sel::Bytes => {
-            let mut cat = vec![];
-            for o in &frames {
-                match o {
-                    Out::Item(f) => {
-                        if f.is_empty() {
-                            rep.t3("C13", "BytesCodec yielded an empty item");
-                        }
-                        if cat.len() < io.delivered.len() || !f.is_empty() {
-                            cat.extend_from_slice(f);
-                        }
-                    }
-                    Out::DecErr(k) => rep.t3("C13", &format!("BytesCodec decode error {k:?}")),
-                    _ => {}
-                }
-            }
-            let seen_none = frames.iter().any(|o| *o == Out::None);
-            if !io.delivered.starts_with(&cat) || (seen_none && cat.len() != io.delivered.len()) {
-                rep.t3("C13", &format!("BytesCodec items concatenate to {} bytes {} but the stream is {} bytes {} (none seen: {seen_none})", cat.len(), show_bytes(&cat), io.delivered.len(), show_bytes(&io.delivered)));
-            }
-            if let Some(i) = frames.iter().position(|o| *o == Out::None) {
-                if frames[i..].iter().any(|o| *o != Out::None) {
-                    rep.t3("C13", "an item after None");
-                }
-            }
-        }
-        _ => {
-            let want = whole_stream(s.sel, &io.delivered, io.eof_answered, frames.len());
-            let n = frames.len().min(want.len());
-            if frames[..n] != want[..n] || (io.eof_answered && frames.len() > want.len()) {
-                rep.t3("C13", &format!("{} codec: Framed yielded [{}] but decoding the whole stream {} with a fresh codec yields [{}]", s.sel.name(), show(&frames), show_bytes(&io.delivered), show(&want)));
-            } else if !io.eof_answered && frames.len() > want.len() {
-                rep.t3("C13", &format!("{} codec: Framed yielded [{}], more than the [{}] in the {} bytes delivered so far", s.sel.name(), show(&frames), show(&want), io.delivered.len()));
-            }
+    if let Some(i) = frames.iter().position(|(o, _)| *o == Out::None) {
+        if frames[i..].iter().any(|(o, _)| *o != Out::None) {
+            rep.t3("C13", "an item after None");
         }
     }
+    // the reference: walk the delivered stream with fresh codecs, segment by segment
+    let d = &io.delivered;
+    let at_eof = io.eof_answered;
+    let all: Vec<Out> = frames.iter().map(|(o, _)| o.clone()).collect();
+    let mut offs: Vec<usize> = vec![0]; // offs[j] = bytes consumed by the first j frame outputs
+    let mut off = 0usize;
+    let mut i = 0usize;
+    let mut ok = true;
+    while i < frames.len() && ok {
+        let sel = frames[i].1;
+        let mut j = i;
+        while j < frames.len() && frames[j].1 == sel {
+            j += 1;
+        }
+        match sel {
+            Sel::Bytes => {
+                for (o, _) in &frames[i..j] {
+                    match o {
+                        Out::Item(f) => {
+                            if f.is_empty() {
+                                rep.t3("C13", "BytesCodec yielded an empty item");
+                            }
+                            if !d[off..].starts_with(f) {
+                                rep.t3("C13", &format!("BytesCodec items [{}] are not a chunking of the stream: after {off} bytes the stream continues {} but the item is {}", show_outs(&all), show_bytes(&d[off..(off + f.len()).min(d.len())]), show_bytes(f)));
+                                ok = false;
+                                break;
+                            }
+                            off += f.len();
+                        }
+                        Out::DecErr(k) => {
+                            rep.t3("C13", &format!("BytesCodec decode error {k:?}"));
+                            ok = false;
+                            break;
+                        }
+                        _ => {
+                            // None: everything delivered must have been yielded, and only at end of file
+                            if off != d.len() || !at_eof {
+                                rep.t3("C13", &format!("BytesCodec: None after {off} of the {} bytes delivered (end of file answered: {at_eof}); items [{}]", d.len(), show_outs(&all)));
+                                ok = false;
+                                break;
+                            }
+                        }
+                    }
+                    offs.push(off);
+                }
+            }
+            _ => {
+                let mut codec = AnyCodec::new(sel);
+                let mut src = BytesMut::from(&d[off..]);
+                for (k, (o, _)) in frames[i..j].iter().enumerate() {
+                    let mut w = conv_dec(codec.decode(&mut src));
+                    if w == Out::None {
+                        if !at_eof {
+                            rep.t3("C13", &format!("{} codec: Framed yielded [{}], more than the {} frames in the {} bytes delivered so far", sel.name(), show_outs(&all), i + k, d.len()));
+                            ok = false;
+                            break;
+                        }
+                        w = conv_dec(codec.decode_eof(&mut src));
+                    }
+                    if w != *o {
+                        let mut want: Vec<Out> = all[..i + k].to_vec();
+                        want.push(w);
+                        rep.t3("C13", &format!("{} codec: Framed yielded [{}] but decoding the whole stream {} with a fresh codec yields [{}] (output {})", sel.name(), show_outs(&all), show_bytes(d), show_outs(&want), i + k));
+                        ok = false;
+                        break;
+                    }
+                    off = d.len() - src.len();
+                    offs.push(off);
+                }
+            }
+        }
+        i = j;
+    }
+    // no read while a complete frame is buffered
+    let snaps = &io.read_snaps;
+    let mut checked = s.snaps_checked;
+    while checked < snaps.len() {
+        let sn = &snaps[checked];
+        if sn.frames >= offs.len() {
+            break; // the reference stopped before (mismatch reported above) or the poll is not over yet
+        }
+        checked += 1;
+        let o = offs[sn.frames];
+        if o > sn.delivered {
+            continue;
+        }
+        let buffered = &d[o..sn.delivered];
+        if !buffered.is_empty() && sn.sels.iter().all(|c| can_decode(*c, buffered)) {
+            let cur = sn.sels.last().copied().unwrap_or(s.sel);
+            rep.t3(
+                "C13",
+                &format!(
+                    "poll_read was called although the bytes already delivered hold a complete frame not yet yielded: {} frame outputs so far, {} codec, not yet consumed {} (a Pending or an I/O error is then surfaced before a frame that is ready)",
+                    sn.frames,
+                    cur.name(),
+                    show_bytes(buffered)
+                ),
+            );
+        }
+    }
+    drop(io);
+    s.snaps_checked = checked;
 }
 
 fn parse_rd(w: &str) -> Option<Rd> {
@@ -844,13 +1075,13 @@ fn step_c13(ws: &[&str], s: &mut Session, rep: &mut Report) -> Option<String> {
             }
             None => "bad-op".into(),
         },
-        ["poll"] => {
+        [op @ ("poll" | "next")] => {
             if s.dead {
                 return Some("panic".into());
             }
-            let r = s.poll_next();
+            let r = s.poll_next(*op == "next");
             let o = match r {
-                Ok(o) => format!("{} {}", o.show(), s.rd_counters()),
+                Ok(o) => format!("{} {}", o.show(), s.rd_counters(rep)),
                 Err(_) => "panic".into(),
             };
             if s.io.0.borrow().delivered.len() <= 256 {
@@ -865,23 +1096,69 @@ fn step_c13(ws: &[&str], s: &mut Session, rep: &mut Report) -> Option<String> {
                 }
                 let mut shown = vec![];
                 for _ in 0..n {
-                    match s.poll_next() {
+                    match s.poll_next(false) {
                         Ok(o) => shown.push(o.show()),
                         Err(_) => break,
                     }
                 }
-                let o = if s.dead { "panic".to_string() } else { format!("[{}] {}", shown.join(","), s.rd_counters()) };
+                let o = if s.dead { "panic".to_string() } else { format!("[{}] {}", shown.join(","), s.rd_counters(rep)) };
                 oracle_c13(s, rep);
                 o
             }
             _ => "bad-op".into(),
         },
+        ["swap", c, via @ ("map" | "replace" | "parts")] => match Sel::parse(c) {
+            Some(sel) => {
+                if s.dead {
+                    return Some("panic".into());
+                }
+                let (rb0, wb0) = (s.read_buf(), s.write_buf());
+                let r = catch(|| s.swap(sel, via));
+                if r.is_err() {
+                    s.dead = true;
+                    return Some("panic".into());
+                }
+                let (rb1, wb1) = (s.read_buf(), s.write_buf());
+                // T3: a codec swap carries both buffers over
+                if rb0 != rb1 {
+                    rep.t3("C13", &format!("codec swap ({via}) changed read_buf from {} to {}", show_bytes(&rb0), show_bytes(&rb1)));
+                }
+                if wb0 != wb1 {
+                    rep.t3("C14", &format!("codec swap ({via}) changed write_buf from {} to {}", show_bytes(&wb0), show_bytes(&wb1)));
+                }
+                format!("ok {} {}", s.rd_counters(rep), s.wr_counters(rep))
+            }
+            None => "bad-op".into(),
+        },
+        ["mapio"] => {
+            if s.dead {
+                return Some("panic".into());
+            }
+            let (rb0, wb0) = (s.read_buf(), s.write_buf());
+            if catch(|| s.map_io()).is_err() {
+                s.dead = true;
+                return Some("panic".into());
+            }
+            let (rb1, wb1) = (s.read_buf(), s.write_buf());
+            if rb0 != rb1 {
+                rep.t3("C13", &format!("into_map_io changed read_buf from {} to {}", show_bytes(&rb0), show_bytes(&rb1)));
+            }
+            if wb0 != wb1 {
+                rep.t3("C14", &format!("into_map_io changed write_buf from {} to {}", show_bytes(&wb0), show_bytes(&wb1)));
+            }
+            format!("ok {} {}", s.rd_counters(rep), s.wr_counters(rep))
+        }
         _ => return None,
     })
 }
 
 const C13_ALPHABETS: [(Sel, &[u8]); 3] =
     [(Sel::Lines, &[b'a', b'\r', b'\n', 0xFF]), (Sel::Len, &[0, 1, 2, 0xFF]), (Sel::Bytes, &[b'a', b'\n'])];
+
+/// alphabet of the codec-swap cases: a delimiter for `LinesCodec`, short frames for the
+/// length-prefixed codec (`00` = empty frame, `01 x` = one byte), and a byte that starts a frame
+/// longer than the stream (truncated at end of file)
+const SWAP_ALPHABET: [u8; 4] = [0x00, 0x01, 0x0a, 0x61];
 
 /// all compositions of `s` into non-empty chunks
 fn compositions(s: &[u8]) -> Vec<Vec<Vec<u8>>> {
@@ -927,6 +1204,25 @@ fn emit_c13(w: &mut dyn Write, id: &mut usize, sel: Sel, tag: &str, script: &[Rd
     let evs: Vec<String> = script.iter().map(show_rd).collect();
     writeln!(w, "script {}", evs.join(" ")).unwrap();
     writeln!(w, "drain {polls}").unwrap();
+}
+
+const VIAS: [&str; 3] = ["map", "replace", "parts"];
+
+/// a codec-swap case: `before` polls with codec `a`, swap to `b`, `after` polls
+#[allow(clippy::too_many_arguments)]
+fn emit_swap(w: &mut dyn Write, id: &mut usize, a: Sel, b: Sel, tag: &str, script: &[Rd], before: usize, after: usize) {
+    *id += 1;
+    writeln!(w, "case c13-swap-{}-{}-{tag}-{} codec={}", a.name(), b.name(), *id, a.name()).unwrap();
+    let evs: Vec<String> = script.iter().map(show_rd).collect();
+    writeln!(w, "script {}", evs.join(" ")).unwrap();
+    if before > 0 {
+        writeln!(w, "drain {before}").unwrap();
+    }
+    if *id % 7 == 3 {
+        writeln!(w, "mapio").unwrap();
+    }
+    writeln!(w, "swap {} {}", b.name(), VIAS[*id % 3]).unwrap();
+    writeln!(w, "drain {after}").unwrap();
 }
 
 fn long_stream(rng: &mut Rng, sel: Sel) -> Vec<u8> {
@@ -980,10 +1276,48 @@ fn long_stream(rng: &mut Rng, sel: Sel) -> Vec<u8> {
     v
 }
 
+fn all_kinds() -> Vec<io::ErrorKind> {
+    KINDS.iter().map(|(_, k)| *k).collect()
+}
+
 fn gen_c13(a: &Args, w: &mut dyn Write) {
     let thorough = a.tier == "thorough";
     let mut id = 0usize;
-    let kinds = [io::ErrorKind::ConnectionReset, io::ErrorKind::BrokenPipe, io::ErrorKind::WouldBlock, io::ErrorKind::Interrupted];
+    // every error kind the transport may answer, `UnexpectedEof`, `WouldBlock`, `Interrupted` included:
+    // each of them is an item of the stream, none is an end of stream or a retry
+    let kinds = all_kinds();
+    // (F) codec swaps (first: these are the scenarios that need a history): every string over the swap
+    // alphabet, every composition, every pair of codecs, the swap after 0..3 polls, without transport
+    // events / with a Pending / an I/O error at every place
+    {
+        let lf = if thorough { 4 } else { 3 };
+        let mut k = 0usize;
+        all_strings(&SWAP_ALPHABET, lf, &mut |s| {
+            if s.is_empty() {
+                return;
+            }
+            for chunks in compositions(s) {
+                let polls = chunks.len() + s.len() + 3;
+                let p = chunks.len() + 1;
+                for a_sel in SELS {
+                    for b_sel in SELS {
+                        for before in 0..=(if s.len() >= 3 { 3 } else { 2 }) {
+                            emit_swap(w, &mut id, a_sel, b_sel, "plain", &script_with(&chunks, &[]), before, polls);
+                            if s.len() == 4 && (a_sel != b_sel) && before == 0 {
+                                continue;
+                            }
+                            for i in 0..p {
+                                k += 1;
+                                emit_swap(w, &mut id, a_sel, b_sel, "pend", &script_with(&chunks, &[(i, Rd::Pending)]), before, polls + 1);
+                                let e = Rd::Err(kinds[k % kinds.len()]);
+                                emit_swap(w, &mut id, a_sel, b_sel, "err", &script_with(&chunks, &[(i, e)]), before, polls + 1);
+                            }
+                        }
+                    }
+                }
+            }
+        });
+    }
     for (sel, alphabet) in C13_ALPHABETS {
         let extra = if alphabet.len() == 2 { 2 } else { 0 };
         let (la, lb) = if thorough { (6 + extra, 5 + extra) } else { (5 + extra, 4 + extra) };
@@ -1004,13 +1338,25 @@ fn gen_c13(a: &Args, w: &mut dyn Write) {
                         emit_c13(w, &mut id, sel, "pend2", &script_with(&chunks, &[(i, Rd::Pending), (j, Rd::Pending)]), polls + 2);
                     }
                 }
-                // (C) one I/O error at every place, alone / after a Pending / before a Pending
+                // (C) one I/O error (every kind in turn) at every place, alone / after a Pending / before a
+                // Pending; an explicit end of file (an empty read) at every place: nothing after it is read
                 for i in 0..p {
                     k += 1;
                     let e = Rd::Err(kinds[k % kinds.len()]);
                     emit_c13(w, &mut id, sel, "err", &script_with(&chunks, &[(i, e.clone())]), polls + 1);
                     emit_c13(w, &mut id, sel, "perr", &script_with(&chunks, &[(i, Rd::Pending), (i, e.clone())]), polls + 2);
                     emit_c13(w, &mut id, sel, "errp", &script_with(&chunks, &[(i, e.clone()), (i, Rd::Pending)]), polls + 2);
+                    let z = if k % 2 == 0 { Rd::Eof } else { Rd::Data(vec![]) };
+                    emit_c13(w, &mut id, sel, "eof", &script_with(&chunks, &[(i, z.clone())]), polls + 1);
+                    emit_c13(w, &mut id, sel, "erreof", &script_with(&chunks, &[(i, e.clone()), (i, z)]), polls + 2);
+                    if s.len() >= lb {
+                        continue;
+                    }
+                    // two I/O errors (same place: back to back; or two places)
+                    for j in i..p {
+                        let e2 = Rd::Err(kinds[(k + 5 + j) % kinds.len()]);
+                        emit_c13(w, &mut id, sel, "err2", &script_with(&chunks, &[(i, e.clone()), (j, e2)]), polls + 2);
+                    }
                 }
             }
         });
@@ -1038,7 +1384,7 @@ fn gen_c13(a: &Args, w: &mut dyn Write) {
                 script.push(Rd::Pending);
             }
         }
-        if rng.chance(1, 2) {
+        for _ in 0..*rng.pick(&[0usize, 1, 1, 2, 4]) {
             let at = rng.below(script.len() + 1);
             script.insert(at, Rd::Err(*rng.pick(&kinds)));
         }
@@ -1058,12 +1404,22 @@ fn gen_c13(a: &Args, w: &mut dyn Write) {
         for part in evs.chunks(12) {
             writeln!(w, "script {}", part.join(" ")).unwrap();
         }
-        let frames = whole_stream(sel, &stream, true, 0).len();
-        let polls = (script.len() + frames + 4).min(10000);
+        let frames: usize = SELS.iter().map(|c| whole_stream(*c, &stream, true, 0).len()).sum();
+        let swaps = if rng.chance(1, 3) { rng.range(1, 3) } else { 0 };
+        let polls = (script.len() + if swaps > 0 { frames } else { whole_stream(sel, &stream, true, 0).len() } + 4).min(10000);
         if rng.chance(1, 3) {
             for _ in 0..rng.range(1, 6) {
-                writeln!(w, "poll").unwrap();
+                writeln!(w, "{}", if rng.chance(1, 2) { "poll" } else { "next" }).unwrap();
             }
+        }
+        // codec swaps in the middle of the stream (the buffer may hold several frames, a partial frame,
+        // more than 8 KiB)
+        for _ in 0..swaps {
+            writeln!(w, "drain {}", rng.range(0, (polls / 3).max(1))).unwrap();
+            if rng.chance(1, 4) {
+                writeln!(w, "mapio").unwrap();
+            }
+            writeln!(w, "swap {} {}", rng.pick(&SELS).name(), rng.pick(&VIAS)).unwrap();
         }
         writeln!(w, "drain {polls}").unwrap();
         writeln!(w, "poll").unwrap();
@@ -1076,9 +1432,17 @@ fn gen_c13(a: &Args, w: &mut dyn Write) {
     writeln!(w, "script d:{}", "61".repeat(MAX_CHUNK + 1)).unwrap();
     writeln!(w, "script d:{}", "61".repeat(MAX_CHUNK)).unwrap();
     writeln!(w, "drain x").unwrap();
-    writeln!(w, "drain 100001").unwrap();
+    writeln!(w, "drain 10001").unwrap();
     writeln!(w, "poll 3").unwrap();
+    writeln!(w, "swap").unwrap();
+    writeln!(w, "swap lines").unwrap();
+    writeln!(w, "swap nope map").unwrap();
+    writeln!(w, "swap len bogus").unwrap();
+    writeln!(w, "mapio 1").unwrap();
+    writeln!(w, "next 1").unwrap();
+    writeln!(w, "swap len parts").unwrap();
     writeln!(w, "poll").unwrap();
+    writeln!(w, "next").unwrap();
     writeln!(w, "case c13-badcodec codec=nope").unwrap();
     writeln!(w, "poll").unwrap();
 }
@@ -1145,7 +1509,7 @@ enum SinkOp {
     Close,
 }
 
-fn sink_res(r: Poll<Result<(), io::Error>>) -> String {
+fn sink_res(r: &Poll<Result<(), io::Error>>) -> String {
     match r {
         Poll::Pending => "pending".into(),
         Poll::Ready(Ok(())) => "ok".into(),
@@ -1158,11 +1522,18 @@ fn oracle_c14(s: &mut Session, rep: &mut Report, what: &str) {
     let wb = s.write_buf();
     let io = s.io.0.borrow();
     let mut have = io.written.clone();
+    have.extend_from_slice(&io.staged);
     have.extend_from_slice(&wb);
     if have != s.accepted {
         rep.t3(
             "C14",
-            &format!("after {what}: transport got {} + buffered {} != encodings of the accepted items {}", show_bytes(&io.written), show_bytes(&wb), show_bytes(&s.accepted)),
+            &format!(
+                "after {what}: on the wire {} + staged in the transport {} + buffered {} != encodings of the accepted items {}",
+                show_bytes(&io.written),
+                show_bytes(&io.staged),
+                show_bytes(&wb),
+                show_bytes(&s.accepted)
+            ),
         );
     }
     if let Some(n) = io.shutdown_early {
@@ -1203,16 +1574,30 @@ fn step_c14(ws: &[&str], s: &mut Session, rep: &mut Report) -> Option<String> {
             }
             None => "bad-op".into(),
         },
-        ["send", it] => match parse_item(it) {
+        // `send` = `Sink::start_send`, `write` = the inherent `Framed::write`
+        [op @ ("send" | "write"), it] => match parse_item(it) {
             Some(item) => {
                 if s.dead {
                     return Some("panic".into());
                 }
+                let (w0, f0, sh0) = {
+                    let io = s.io.0.borrow();
+                    (io.n_write, io.n_flush, io.n_shutdown)
+                };
+                let wb_before = s.write_buf();
                 let framed = s.framed.as_mut().unwrap();
-                let r = catch(|| Sink::<Vec<u8>>::start_send(Pin::new(&mut *framed), item.clone()));
+                let inherent = *op == "write";
+                let r = catch(|| {
+                    if inherent {
+                        Pin::new(&mut *framed).write(item.clone())
+                    } else {
+                        Sink::<Vec<u8>>::start_send(Pin::new(&mut *framed), item.clone())
+                    }
+                });
                 let res = match r {
                     Err(_) => {
                         s.dead = true;
+                        rep.t3("C14", &format!("{op} panicked"));
                         return Some("panic".into());
                     }
                     Ok(Ok(())) => {
@@ -1220,37 +1605,55 @@ fn step_c14(ws: &[&str], s: &mut Session, rep: &mut Report) -> Option<String> {
                         s.io.0.borrow_mut().expected_total = s.accepted.len();
                         "ok".to_string()
                     }
-                    Ok(Err(e)) => format!("err:{}", kind_str(e.kind())),
+                    Ok(Err(e)) => {
+                        // T3: a rejected item leaves the buffer as it was
+                        let wb_after = s.write_buf();
+                        if wb_after != wb_before {
+                            rep.t3("C14", &format!("{op} answered {:?} but changed write_buf from {} to {}", e.kind(), show_bytes(&wb_before), show_bytes(&wb_after)));
+                        }
+                        format!("err:{}", kind_str(e.kind()))
+                    }
                 };
-                let o = format!("{res} {}", s.wr_counters());
+                {
+                    let io = s.io.0.borrow();
+                    if (io.n_write, io.n_flush, io.n_shutdown) != (w0, f0, sh0) {
+                        rep.t3("C14", &format!("{op} touched the transport"));
+                    }
+                }
+                let o = format!("{res} {}", s.wr_counters(rep));
                 oracle_c14(s, rep, "start_send");
                 o
             }
             None => "bad-op".into(),
         },
-        [op @ ("ready" | "flush" | "close")] => {
+        // `ready`/`flush`/`close` = the `Sink` methods, `xflush`/`xclose` = the inherent `Framed::flush`/`close`
+        [opw @ ("ready" | "flush" | "close" | "xflush" | "xclose")] => {
             if s.dead {
                 return Some("panic".into());
             }
-            let op = match *op {
-                "ready" => SinkOp::Ready,
-                "flush" => SinkOp::Flush,
-                _ => SinkOp::Close,
+            let (op, inherent) = match *opw {
+                "ready" => (SinkOp::Ready, false),
+                "flush" => (SinkOp::Flush, false),
+                "xflush" => (SinkOp::Flush, true),
+                "close" => (SinkOp::Close, false),
+                _ => (SinkOp::Close, true),
             };
             let wb_before = s.write_buf().len();
-            let (w0, f0, sh0, z0) = {
+            let (w0, f0, sh0, z0, p0, e0) = {
                 let io = s.io.0.borrow();
-                (io.n_write, io.n_flush, io.n_shutdown, io.zero_answers)
+                (io.n_write, io.n_flush, io.n_shutdown, io.zero_answers, io.wpending_answers, io.werr_answers.len())
             };
             let waker = Waker::from(s.wake.clone());
             let mut cx = Context::from_waker(&waker);
             let framed = s.framed.as_mut().unwrap();
             let r = catch(|| {
                 let f = Pin::new(&mut *framed);
-                match op {
-                    SinkOp::Ready => Sink::<Vec<u8>>::poll_ready(f, &mut cx),
-                    SinkOp::Flush => Sink::<Vec<u8>>::poll_flush(f, &mut cx),
-                    SinkOp::Close => Sink::<Vec<u8>>::poll_close(f, &mut cx),
+                match (op, inherent) {
+                    (SinkOp::Ready, _) => Sink::<Vec<u8>>::poll_ready(f, &mut cx),
+                    (SinkOp::Flush, false) => Sink::<Vec<u8>>::poll_flush(f, &mut cx),
+                    (SinkOp::Flush, true) => f.flush::<Vec<u8>>(&mut cx),
+                    (SinkOp::Close, false) => Sink::<Vec<u8>>::poll_close(f, &mut cx),
+                    (SinkOp::Close, true) => f.close::<Vec<u8>>(&mut cx),
                 }
             });
             let r = match r {
@@ -1262,24 +1665,41 @@ fn step_c14(ws: &[&str], s: &mut Session, rep: &mut Report) -> Option<String> {
                 Ok(r) => r,
             };
             let is_ok = matches!(r, Poll::Ready(Ok(())));
-            let is_write_zero = matches!(&r, Poll::Ready(Err(e)) if e.kind() == io::ErrorKind::WriteZero);
-            let res = sink_res(r);
-            let o = format!("{res} {}", s.wr_counters());
+            let is_pending = r.is_pending();
+            let err_kind = match &r {
+                Poll::Ready(Err(e)) => Some(e.kind()),
+                _ => None,
+            };
+            let is_write_zero = err_kind == Some(io::ErrorKind::WriteZero);
+            let res = sink_res(&r);
+            let o = format!("{res} {}", s.wr_counters(rep));
             // T3
             let wb_after = s.write_buf().len();
-            let (w1, f1, sh1, z1, shut) = {
+            let (w1, f1, sh1, z1, p1, errs, shut, staged, wire) = {
                 let io = s.io.0.borrow();
-                (io.n_write, io.n_flush, io.n_shutdown, io.zero_answers, io.shut)
+                (io.n_write, io.n_flush, io.n_shutdown, io.zero_answers, io.wpending_answers, io.werr_answers[e0..].to_vec(), io.shut, io.staged.len(), io.written.len())
             };
             match op {
                 SinkOp::Flush => {
                     if is_ok && wb_after != 0 {
                         rep.t3("C14", &format!("poll_flush answered Ready(Ok) with {wb_after} bytes still buffered"));
                     }
+                    if is_ok && staged != 0 {
+                        rep.t3("C14", &format!("poll_flush answered Ready(Ok) with {staged} bytes still staged in the transport: its poll_flush has not completed ({} calls of it during this poll_flush)", f1 - f0));
+                    }
+                    if is_ok && wire != s.accepted.len() {
+                        rep.t3("C14", &format!("poll_flush answered Ready(Ok) with {wire} of the {} accepted bytes on the wire", s.accepted.len()));
+                    }
                 }
                 SinkOp::Close => {
                     if is_ok && wb_after != 0 {
                         rep.t3("C14", &format!("poll_close answered Ready(Ok) with {wb_after} bytes still buffered (write_buf not flushed)"));
+                    }
+                    if is_ok && staged != 0 {
+                        rep.t3("C14", &format!("poll_close answered Ready(Ok) with {staged} bytes still staged in the transport"));
+                    }
+                    if is_ok && wire != s.accepted.len() {
+                        rep.t3("C14", &format!("poll_close answered Ready(Ok) with {wire} of the {} accepted bytes on the wire", s.accepted.len()));
                     }
                     if is_ok && !shut {
                         rep.t3("C14", "poll_close answered Ready(Ok) but the transport was not shut down");
@@ -1294,14 +1714,29 @@ fn step_c14(ws: &[&str], s: &mut Session, rep: &mut Report) -> Option<String> {
                         if w1 == w0 {
                             rep.t3("C14", &format!("poll_ready with {wb_before} >= HW bytes buffered exerted no back-pressure (no write attempted, answered {res})"));
                         }
-                        if is_ok && wb_after != 0 {
-                            rep.t3("C14", &format!("poll_ready at the high-water mark answered Ready(Ok) with {wb_after} bytes still buffered"));
+                        if is_ok && wb_after >= HW {
+                            rep.t3("C14", &format!("poll_ready at the high-water mark answered Ready(Ok) with {wb_after} bytes still buffered, not below the mark"));
                         }
                     }
                 }
             }
             if z1 > z0 && !is_write_zero {
                 rep.t3("C14", &format!("the transport accepted 0 bytes of a non-empty buffer but {op:?} answered {res}, not WriteZero"));
+            }
+            // a Pending answer is legitimate only if the transport answered Pending (and took the waker)
+            // during this call; an error of the transport is the answer of the call, and no other error
+            // (but WriteZero) is invented
+            if is_pending && p1 == p0 {
+                rep.t3("C14", &format!("{op:?} answered Pending although the transport did not answer Pending during the call (no wake-up registered)"));
+            }
+            if let Some(k) = errs.last() {
+                if err_kind != Some(*k) {
+                    rep.t3("C14", &format!("the transport answered the error {} during {op:?} but the call answered {res}", kind_str(*k)));
+                }
+            } else if let Some(k) = err_kind {
+                if !(is_write_zero && z1 > z0) {
+                    rep.t3("C14", &format!("{op:?} answered the error {} which the transport did not answer", kind_str(k)));
+                }
             }
             oracle_c14(s, rep, &format!("{op:?}"));
             o
@@ -1316,6 +1751,8 @@ struct WConfig {
     wscript: Vec<Wr>,
     fscript: Vec<Fl>,
     sscript: Vec<Fl>,
+    /// 0: the `Sink` methods, 1: the inherent `write`/`flush`/`close`, 2: alternating
+    api: u8,
 }
 
 fn show_wr(e: &Wr) -> String {
@@ -1344,28 +1781,31 @@ fn random_wconfig(rng: &mut Rng) -> WConfig {
     };
     let sizes = (0..rng.range(1, 5)).map(|_| *rng.pick(size_pool)).collect();
     let acc_pool: &[usize] = &[0, 1, 2, 3, 100, 1023, 1024, 1025, 4096, 8191, 8192, 8193, 100000];
+    let kinds = all_kinds();
     let wscript = (0..rng.below(9))
         .map(|_| match rng.below(10) {
             0 => Wr::Pending,
             1 => Wr::Zero,
-            2 => Wr::Err(*rng.pick(&[io::ErrorKind::BrokenPipe, io::ErrorKind::ConnectionReset, io::ErrorKind::WouldBlock, io::ErrorKind::WriteZero])),
+            2 => Wr::Err(*rng.pick(&kinds)),
             _ => Wr::Accept(*rng.pick(acc_pool)),
         })
         .collect();
+    // the transport's own flush / shutdown: Pending (several times in a row, too) as often as Ok
     let fl = |rng: &mut Rng| {
-        (0..rng.below(4))
-            .map(|_| match rng.below(4) {
-                0 => Fl::Pending,
-                1 => Fl::Err(*rng.pick(&[io::ErrorKind::BrokenPipe, io::ErrorKind::TimedOut])),
+        (0..rng.below(5))
+            .map(|_| match rng.below(5) {
+                0 | 1 => Fl::Pending,
+                2 => Fl::Err(*rng.pick(&kinds)),
                 _ => Fl::Ok,
             })
             .collect::<Vec<Fl>>()
     };
     let fscript = fl(rng);
     let sscript = fl(rng);
-    WConfig { sel, sizes, wscript, fscript, sscript }
+    WConfig { sel, sizes, wscript, fscript, sscript, api: rng.below(3) as u8 }
 }
 
+/// ops: 0 send, 1 ready, 2 flush, 3 close, 4 codec swap, 5 into_map_io
 fn emit_c14(w: &mut dyn Write, id: &mut usize, tag: &str, cfg: &WConfig, ops: &[u8]) {
     *id += 1;
     writeln!(w, "case c14-{tag}-{} codec={}", *id, cfg.sel.name()).unwrap();
@@ -1379,20 +1819,28 @@ fn emit_c14(w: &mut dyn Write, id: &mut usize, tag: &str, cfg: &WConfig, ops: &[
         writeln!(w, "sscript {}", cfg.sscript.iter().map(show_fl).collect::<Vec<_>>().join(" ")).unwrap();
     }
     let mut k = 0;
-    for op in ops {
+    let mut sel = cfg.sel;
+    for (n_op, op) in ops.iter().enumerate() {
+        let inherent = cfg.api == 1 || (cfg.api == 2 && (n_op + *id) % 2 == 0);
         match op {
             0 => {
                 let n = cfg.sizes[k % cfg.sizes.len()];
                 k += 1;
+                let verb = if inherent { "write" } else { "send" };
                 if n <= 4 {
-                    writeln!(w, "send {}", hex(&b"a\xc3\xa9b"[..n])).unwrap();
+                    writeln!(w, "{verb} {}", hex(&b"a\xc3\xa9b"[..n])).unwrap();
                 } else {
-                    writeln!(w, "send n:{n}").unwrap();
+                    writeln!(w, "{verb} n:{n}").unwrap();
                 }
             }
             1 => writeln!(w, "ready").unwrap(),
-            2 => writeln!(w, "flush").unwrap(),
-            _ => writeln!(w, "close").unwrap(),
+            2 => writeln!(w, "{}", if inherent { "xflush" } else { "flush" }).unwrap(),
+            3 => writeln!(w, "{}", if inherent { "xclose" } else { "close" }).unwrap(),
+            4 => {
+                sel = SELS[(SELS.iter().position(|c| *c == sel).unwrap() + 1 + (*id + n_op) % 2) % 3];
+                writeln!(w, "swap {} {}", sel.name(), VIAS[(*id + n_op) % 3]).unwrap();
+            }
+            _ => writeln!(w, "mapio").unwrap(),
         }
     }
 }
@@ -1402,15 +1850,19 @@ fn gen_c14(a: &Args, w: &mut dyn Write) {
     let mut id = 0usize;
     let mut rng = Rng::new(a.seed ^ 0x14);
     use io::ErrorKind as K;
-    // hand-written configurations: the marks, partial writes, Pending, zero, errors, every codec
+    // hand-written configurations: the marks, partial writes, Pending, zero, errors, every codec; the
+    // transport's own flush Pending once / several times / failing (bytes stay staged in the transport)
     let fixed = vec![
-        WConfig { sel: Sel::Lines, sizes: vec![1, 0, 3], wscript: vec![], fscript: vec![], sscript: vec![] },
+        WConfig { sel: Sel::Lines, sizes: vec![1, 0, 3], wscript: vec![], fscript: vec![], sscript: vec![], api: 0 },
+        // the transport takes everything at once, but its flush completes only on the second / fourth call
+        WConfig { sel: Sel::Lines, sizes: vec![1, 3], wscript: vec![], fscript: vec![Fl::Pending, Fl::Ok, Fl::Pending, Fl::Pending], sscript: vec![Fl::Pending], api: 0 },
         WConfig {
             sel: Sel::Lines,
             sizes: vec![2],
             wscript: vec![Wr::Accept(1), Wr::Pending, Wr::Accept(2), Wr::Zero, Wr::Accept(100), Wr::Err(K::BrokenPipe), Wr::Pending, Wr::Accept(1)],
             fscript: vec![Fl::Pending, Fl::Ok, Fl::Err(K::TimedOut)],
             sscript: vec![Fl::Pending, Fl::Ok],
+            api: 2,
         },
         WConfig {
             sel: Sel::Len,
@@ -1418,24 +1870,39 @@ fn gen_c14(a: &Args, w: &mut dyn Write) {
             wscript: vec![Wr::Accept(2), Wr::Accept(2), Wr::Pending, Wr::Accept(0), Wr::Accept(1000)],
             fscript: vec![Fl::Err(K::BrokenPipe)],
             sscript: vec![Fl::Err(K::NotConnected), Fl::Ok],
+            api: 0,
         },
         WConfig {
             sel: Sel::Bytes,
             sizes: vec![4000, 4200, 100],
             wscript: vec![Wr::Accept(5000), Wr::Pending, Wr::Accept(100000), Wr::Accept(1)],
-            fscript: vec![],
+            fscript: vec![Fl::Ok, Fl::Pending, Fl::Err(K::UnexpectedEof), Fl::Pending],
             sscript: vec![Fl::Pending],
+            api: 1,
         },
         // 8190 + LF = 8191 < HW: ready without I/O; one more LF = 8192 = HW: ready must flush
-        WConfig { sel: Sel::Lines, sizes: vec![8190, 0, 1], wscript: vec![Wr::Accept(8191), Wr::Accept(1), Wr::Pending], fscript: vec![], sscript: vec![] },
+        WConfig { sel: Sel::Lines, sizes: vec![8190, 0, 1], wscript: vec![Wr::Accept(8191), Wr::Accept(1), Wr::Pending], fscript: vec![Fl::Pending], sscript: vec![], api: 0 },
         WConfig {
             sel: Sel::Bytes,
             sizes: vec![1023, 1, 1024, 1025, 8192],
             wscript: vec![Wr::Accept(1024), Wr::Accept(1), Wr::Pending, Wr::Accept(1023), Wr::Err(K::ConnectionReset)],
             fscript: vec![Fl::Ok, Fl::Pending],
             sscript: vec![],
+            api: 2,
         },
+        // more than HW in the buffer, a transport that takes a little and then blocks: still back-pressure
+        WConfig { sel: Sel::Bytes, sizes: vec![9192, 3000], wscript: vec![Wr::Accept(100), Wr::Pending, Wr::Accept(900), Wr::Pending, Wr::Accept(10)], fscript: vec![Fl::Pending], sscript: vec![Fl::Ok], api: 0 },
     ];
+    // (A0) codec swaps between the sends (the buffer is carried over, the encoder changes): every
+    // sequence over {send, ready, flush, close, swap, mapio} up to length 4
+    all_strings(&[0, 1, 2, 3, 4, 5], 4, &mut |ops| {
+        if ops.is_empty() || !ops.contains(&4) && !ops.contains(&5) {
+            return;
+        }
+        for cfg in fixed.iter().take(4) {
+            emit_c14(w, &mut id, "swap", cfg, ops);
+        }
+    });
     // (A) every interleaving of start_send / poll_ready / poll_flush / poll_close up to the bound
     let l = if thorough { 8 } else { 6 };
     let nrand = if thorough { 1 } else { 3 };
@@ -1463,18 +1930,23 @@ fn gen_c14(a: &Args, w: &mut dyn Write) {
         let big = cfg.sizes.iter().any(|n| *n > 2000);
         let n = if big { rng.range(7, 14) } else { rng.range(7, 40) };
         let ops: Vec<u8> = (0..n)
-            .map(|_| match rng.below(10) {
-                0..=3 => 0,
-                4..=6 => 1,
-                7 | 8 => 2,
-                _ => 3,
+            .map(|_| match rng.below(21) {
+                0..=7 => 0,
+                8..=12 => 1,
+                13..=16 => 2,
+                17 | 18 => 3,
+                19 => 4,
+                _ => 5,
             })
             .collect();
         emit_c14(w, &mut id, "rand", &cfg, &ops);
     }
     // (C) malformed ops: rejected identically by both sides
     writeln!(w, "case c14-malformed codec=bytes").unwrap();
-    for l in ["wscript a:", "wscript a:x", "wscript q", "fscript a:1", "sscript z", "send", "send n:", "send n:20001", "send 6", "ready now", "flush 1", "close x", "send n:20000", "flush"] {
+    for l in [
+        "wscript a:", "wscript a:x", "wscript q", "fscript a:1", "sscript z", "send", "send n:", "send n:20001", "send 6", "write", "write n:", "write 6", "ready now", "flush 1", "close x",
+        "xflush 1", "xclose x", "send n:20000", "flush", "xflush",
+    ] {
         writeln!(w, "{l}").unwrap();
     }
 }
